@@ -186,6 +186,12 @@ def beancount_wildcards():
                 rows = cur.fetchall()
                 if got != wild:
                     bad.append((name, got, wild))
+                # "`*` expands to the table's default columns in declaration order": independently of the list the
+                # table reports, the expansion must keep the order in which the table declares its columns
+                declared = [c for c, _ in cols]
+                in_order = [c for c in declared if c in got]
+                if sorted(got) == sorted(in_order) and got != in_order:
+                    bad.append((name, got, in_order))
                 if any(len(r) != len(got) for r in rows):
                     bad.append((name, 'row width', len(got)))
                 cur = conn.execute(f'SELECT {", ".join(c for c, _ in cols)} FROM #{name}')
